@@ -25,8 +25,10 @@ RULE = ("random system bounds/zone x 1-5 proposals with distinct priorities bias
         "each end of the reported bounds +-1 W, zone edges +-1 W and 0. distinct = canonical case JSON; non-trivial = "
         "conflict-free and (>=2 proposals with a preference or a bounds-narrowing higher-priority proposal)")
 REQUIRED_BUCKETS = ["conflict-free-set", "zone-present", "no-zone", "narrowed-by-higher-priority",
-                    "probe-adopted", "probe-rejected", "probe-in-zone", "null-proposal-added", "two-candidates"]
-REQUIRED_COUNTERS = ["targets_vs_reference", "adoption_probes", "adjust_to_bounds_probes", "null_proposal_checks"]
+                    "probe-adopted", "probe-rejected", "probe-in-zone", "null-proposal-added", "two-candidates",
+                    "update-prefers-the-previous-target"]
+REQUIRED_COUNTERS = ["targets_vs_reference", "adoption_probes", "adjust_to_bounds_probes", "null_proposal_checks",
+                     "update_steps_checked"]
 ASSUMPTIONS = ["reference model vf/pm.reference encodes the statement; conflicting sets are left to C03"]
 
 
@@ -80,6 +82,42 @@ def check(case: dict[str, Any], rec: Any) -> None:
                                                         "interval": ref["interval"]})
     n_pref = sum(1 for p in props if p["pref"] is not None)
     narrowed = False
+
+    # (4) an actor replaces its proposal the way the power manager feeds them (must_return_power=False): the stored
+    # target (get_target_power) is that of the *current* proposal set, also when the new preference happens to equal
+    # the previous target and only the bounds moved
+    import random as _random
+
+    ur = _random.Random(case.get("useed", len(props) * 7919 + int(abs(sl) + abs(su))))
+    m3 = _feed(props, sb)
+    cur = [dict(p) for p in props]
+    t_prev = t
+    for _ in range(3):
+        i = ur.randrange(len(cur))
+        newp = dict(cur[i])
+        newp["pref"] = ur.choice([t_prev, t_prev, None, ur.choice(pm.VALS)])
+        newp["lo"] = ur.choice([None, None] + [v for v in pm.VALS if v <= 0])
+        newp["hi"] = ur.choice([None, None] + [v for v in pm.VALS if v >= 0])
+        nxt = cur[:i] + [newp] + cur[i + 1:]
+        ref3 = pm.reference(nxt, sl, su, el, eu)
+        if ref3 is None:
+            break  # the update would make the set conflicting: outside this property
+        cur = nxt
+        r = m3.calculate_target_power(pm.CID, pm.mk_proposal(newp), sb, False)
+        stored = m3.get_target_power(pm.CID)
+        rec.count("update_steps_checked")
+        if newp["pref"] is not None and t_prev is not None and abs(newp["pref"] - t_prev) <= 1e-9:
+            rec.bucket("update-prefers-the-previous-target")
+        sw = None if stored is None else stored.as_watts()
+        w3 = {"updated_actor": newp, "stored_target": sw, "returned": None if r is None else r.as_watts(),
+              "reference_candidates": sorted(ref3["candidates"]), "previous_target": t_prev, "proposals": cur}
+        if sw is None or not any(abs(sw - c) <= 1e-6 for c in ref3["candidates"]):
+            rec.violation("stored-target-stale-or-wrong-after-an-update", w3)
+            break
+        if r is not None and abs(r.as_watts() - sw) > 1e-6:
+            rec.violation("returned-target-differs-from-stored-target", w3)
+            break
+        t_prev = sw
 
     # (3) a proposal with neither power nor bounds is equivalent to no proposal
     prios = sorted({p["prio"] for p in props})
